@@ -11,5 +11,6 @@ else git apply "$P" || { echo "cannot apply $P"; cd /; git -C /repo worktree rem
 cd /verif
 VERIF_REPO=$WT VERIF_NO_EVIDENCE=1 ./check "$PROP" "$TIER" 2>&1 | tail -${TAILN:-8}
 rc=${PIPESTATUS[0]}
+VERIF_REPO=$WT /venv/bin/python -c "from vf import env; env.clean_scratch_build()"
 git -C /repo worktree remove --force "$WT"
 echo "rc=$rc"
